@@ -9,7 +9,7 @@
 (*   IV-length rule; and the counter law +1 mod SYM^B incl. wrap-around.     *)
 (***************************************************************************)
 EXTENDS Naturals, Sequences, Bitwise, TLC, FiniteSets
-CONSTANTS MaxLen, Keys, BADCTR
+CONSTANTS MaxLen, Keys, BADCTR, LocalMax        \* the local-form agreement is checked for data strings of at most LocalMax symbols
 TB == 2
 TSYM == 4
 PI == <<7, 12, 1, 10, 15, 4, 9, 2, 11, 0, 13, 6, 3, 8, 5, 14>>      \* a fixed permutation of 0..15 (index n+1)
@@ -47,11 +47,11 @@ Alter(o, pos, v) == [o EXCEPT ![pos] = v]
 Cands(o) == {o} \cup {Alter(o, pos, v) : pos \in 1..Len(o), v \in 0..3} \cup {o \o <<0>>} \cup (IF Len(o) > 0 THEN {SubSeq(o, 1, Len(o) - 1)} ELSE {})
                 \cup (IF Len(o) <= 3 THEN UNION {[1..n -> 0..3] : n \in 0..3} ELSE {})
 EncLocalAgrees2(ct) == \A o \in Cands(ct) : M!EncLocalOK(mmode, mkey, miv, mdata, "ok", o) = (o = ct)
-EncLocalAgrees == mphase = "grow" => EncLocalAgrees2(M!ModeEnc(mmode, mkey, miv, mdata)) /\ ~M!EncLocalOK(mmode, mkey, miv, mdata, "err", <<>>)
+EncLocalAgrees == mphase = "grow" /\ Len(mdata) <= LocalMax => EncLocalAgrees2(M!ModeEnc(mmode, mkey, miv, mdata)) /\ ~M!EncLocalOK(mmode, mkey, miv, mdata, "err", <<>>)
 DecLocalAgrees2(x) == IF x[1] = "err" THEN M!DecLocalOK(mmode, mkey, miv, mdata, "err", <<>>) /\ ~M!DecLocalOK(mmode, mkey, miv, mdata, "ok", <<>>)
                       ELSE (\A o \in Cands(x[2]) : M!DecLocalOK(mmode, mkey, miv, mdata, "ok", o) = (o = x[2])) /\ ~M!DecLocalOK(mmode, mkey, miv, mdata, "err", <<>>)
-DecLocalAgrees == mphase = "grow" => DecLocalAgrees2(M!DecOutcome(mmode, mkey, miv, mdata))
-LocalIvRule == mphase = "grow" => \A bad \in {<<>>, <<1>>, <<1,2,3>>} : M!EncLocalOK(mmode, mkey, bad, mdata, "err", <<>>) /\ ~M!EncLocalOK(mmode, mkey, bad, mdata, "ok", mdata)
+DecLocalAgrees == mphase = "grow" /\ Len(mdata) <= LocalMax => DecLocalAgrees2(M!DecOutcome(mmode, mkey, miv, mdata))
+LocalIvRule == mphase = "grow" /\ Len(mdata) <= LocalMax => \A bad \in {<<>>, <<1>>, <<1,2,3>>} : M!EncLocalOK(mmode, mkey, bad, mdata, "err", <<>>) /\ ~M!EncLocalOK(mmode, mkey, bad, mdata, "ok", mdata)
                                                                     /\ M!DecLocalOK(mmode, mkey, bad, mdata, "err", <<>>)
 AddCtrLaw == \A c \in (0..3) \X (0..3), i \in 0..40 : Num(M!AddCtr(c, i)) = (Num(c) + i) % 16
 ASSUME AddCtrLaw
